@@ -14,7 +14,7 @@ import (
 func init() { Registry["C10"] = c10 }
 
 func c10(c *Ctx) {
-	c.R.Explanation = "C10: the step/termination structure and one latency precondition are decided; not the latency itself. R-step (symbolic range analysis, as C02(c)) = on the stall path of the target computation the request rises by >= 1 over the stalled request and over the old floor, and the floor is raised (offset increment). R-max = from every edge on which the stall predicate (a comparison of Fan.GetRpmAvg() with a constant) holds, every path either performs the raise or returns an exported sentinel error, and that return is reachable only across an edge establishing request >= Fan.GetMaxPwm(); UpdateFanSpeed returns the target computation's error unchanged (its handling — restore and stop — is C03 R-exit / C09 R-contain). R-lastreq = the write routine records its unmodified request in the field the stall predicate compares with (otherwise 'request unchanged' never holds for fans whose PWM map has gaps). R-poll = every path through the poll of the RPM monitor feeds a reading into the RPM average unless Fan.GetRpm itself failed (an early return on some other fault would freeze the input of the stall test). R-threshold (data flow) = for every Fan implementation whose GetRpmAvg returns, untruncated, a float field that the RPM monitor updates with util.UpdateSimpleMovingAvg (an exponential average old + (new-old)/n), the stall predicate's constant must be > 0: for n >= 2 such an average of non-negative readings that was ever positive never becomes <= 0 (it sticks at a positive denormal), so a test against a non-positive constant cannot fire within tens of polls, or ever. R-raise = each floor-raising instruction reached from the stall edge (a store to the offset field, or a call that may store it) writes offset + k, k >= 1, on every path through it; a path that leaves the offset unchanged is accepted only where its branch condition implies GetMinPwm() + offset >= GetMaxPwm() (linear facts evaluated with the range analysis). Not decided: the actual number of polls; pacing."
+	c.R.Explanation = "C10: the step/termination structure and one latency precondition are decided; not the latency itself. R-step (symbolic range analysis, as C02(c)) = on the stall path of the target computation the request rises by >= 1 over the stalled request and over the old floor, and the floor is raised (offset increment). R-max = from every edge on which the stall predicate (a comparison of Fan.GetRpmAvg() with a constant) holds, every path either performs the raise or returns an exported sentinel error, and that return is reachable only across an edge establishing request >= Fan.GetMaxPwm(); UpdateFanSpeed returns the target computation's error unchanged (its handling — restore and stop — is C03 R-exit / C09 R-contain). R-lastreq = the write routine records its unmodified request in the field the stall predicate compares with (otherwise 'request unchanged' never holds for fans whose PWM map has gaps). R-poll = every path through the poll of the RPM monitor feeds a reading into the RPM average unless Fan.GetRpm itself failed (an early return on some other fault would freeze the input of the stall test). R-threshold (data flow) = for every Fan implementation whose GetRpmAvg returns, untruncated, a float field that the RPM monitor updates with util.UpdateSimpleMovingAvg (an exponential average old + (new-old)/n), the stall predicate's constant must be > 0: for n >= 2 such an average of non-negative readings that was ever positive never becomes <= 0 (it sticks at a positive denormal), so a test against a non-positive constant cannot fire within tens of polls, or ever. R-raise = each floor-raising instruction reached from the stall edge (a store to the offset field, or a call that may store it) writes offset + k, k >= 1, on every path through it; a path that leaves the offset unchanged is accepted only where its branch condition implies GetMinPwm() + offset >= GetMaxPwm() (linear facts evaluated with the range analysis). R-poll|lifetime = the goroutine that calls the poll in a loop returns only from the <-ctx.Done() case of its select (any other exit freezes the RPM average while the control loop keeps testing it). Not decided: the actual number of polls; pacing."
 	c.R.Assumptions = append(c.R.Assumptions, envelopeAssumptions, "RPM readings are non-negative")
 	r := c.analyseRegulation()
 	r.ruleEnvelope("R-step", false, false, true)
@@ -195,27 +195,83 @@ func c10(c *Ctx) {
 	// `<-ctx.Done()` case of its select. Any other exit ends the polling while the control loop keeps testing an
 	// average that is never refreshed again (a later stall is not noticed within any bound).
 	nlife := 0
+	isPollFn := func(st *ssa.Function) bool {
+		isPoll := false
+		Calls(st, func(c2 ssa.CallInstruction) {
+			if isFanInvoke(c2, "SetRpmAvg") && termHasCall(r.tb.Of(c2.Common().Args[0], nil), "util.UpdateSimpleMovingAvg") {
+				isPoll = true
+			}
+		})
+		return isPoll
+	}
+	// poll-ish: the poll itself or a controller function that calls one (a "wait for the tick, then poll" helper)
+	pollish := map[*ssa.Function]bool{}
+	for depth := 0; depth < 3; depth++ {
+		for _, fn := range c.P.Funcs {
+			if load_FuncPkgPath(fn) != PkgCtrl || len(fn.Blocks) == 0 || pollish[fn] {
+				continue
+			}
+			if isPollFn(fn) {
+				pollish[fn] = true
+				continue
+			}
+			Calls(fn, func(cc ssa.CallInstruction) {
+				if _, isGo := cc.(*ssa.Go); isGo {
+					return
+				}
+				if st := ir.Callee(cc).Static; st != nil && pollish[st] && loopHead(cc.Block()) == nil {
+					pollish[fn] = true
+				}
+			})
+		}
+	}
+	// the facts establish "the <-ctx.Done() case of a select was taken"
+	doneFact := func(facts []ir.Fact) bool {
+		return ir.HasFact(facts, token.EQL, func(x, y ssa.Value) bool {
+			ex, isEx := x.(*ssa.Extract)
+			k, isConst := ir.ConstInt(y)
+			if !isEx || !isConst || ex.Index != 0 {
+				return false
+			}
+			sel, isSel := ex.Tuple.(*ssa.Select)
+			if !isSel || int(k) >= len(sel.States) || k < 0 {
+				return false
+			}
+			call, isCall := ir.Resolve(sel.States[k].Chan).(*ssa.Call)
+			return isCall && sel.States[k].Dir == types.RecvOnly && strings.HasSuffix(ir.CallName(call), "context.Context.Done")
+		})
+	}
+	// a boolean helper says `truth` only from the Done case
+	saysOnlyOnDone := func(h *ssa.Function, truth bool) bool {
+		if len(h.Blocks) == 0 || h.Signature.Results().Len() != 1 {
+			return false
+		}
+		for _, rv := range returnsFrom([]ir.Point{{Block: h.Blocks[0]}}, ir.Search{}) {
+			res := ir.ResultVia(rv.ret, 0, rv.via)
+			if k, isConst := ir.ConstBool(res); isConst && k != truth {
+				continue
+			}
+			if !doneFact(factsAt(rv.ret.Block(), rv.via)) {
+				return false
+			}
+		}
+		return true
+	}
 	for _, fn := range c.P.Funcs {
 		if load_FuncPkgPath(fn) != PkgCtrl || len(fn.Blocks) == 0 {
 			continue
 		}
-		// a looping caller of a poll function
+		// a looping caller of a poll-ish function
 		var pollCall ssa.Instruction
 		Calls(fn, func(cc ssa.CallInstruction) {
 			if _, isGo := cc.(*ssa.Go); isGo {
 				return
 			}
 			st := ir.Callee(cc).Static
-			if st == nil || st == fn || load_FuncPkgPath(st) != PkgCtrl {
+			if st == nil || st == fn || !pollish[st] {
 				return
 			}
-			isPoll := false
-			Calls(st, func(c2 ssa.CallInstruction) {
-				if isFanInvoke(c2, "SetRpmAvg") && termHasCall(r.tb.Of(c2.Common().Args[0], nil), "util.UpdateSimpleMovingAvg") {
-					isPoll = true
-				}
-			})
-			if isPoll && loopHead(cc.Block()) != nil {
+			if loopHead(cc.Block()) != nil {
 				pollCall = cc
 			}
 		})
@@ -228,19 +284,20 @@ func c10(c *Ctx) {
 		bad := ""
 		for _, rv := range returnsFrom([]ir.Point{{Block: h, Idx: 0}}, ir.Search{}) {
 			facts := factsAt(rv.ret.Block(), rv.via)
-			okDone := ir.HasFact(facts, token.EQL, func(x, y ssa.Value) bool {
-				ex, isEx := x.(*ssa.Extract)
-				k, isConst := ir.ConstInt(y)
-				if !isEx || !isConst || ex.Index != 0 {
-					return false
+			okDone := doneFact(facts)
+			if !okDone {
+				// the exit is decided by a helper that reports "cancelled" only from its Done case
+				for _, f := range facts {
+					if f.Bool == nil {
+						continue
+					}
+					if call, isCall := f.Bool.(*ssa.Call); isCall {
+						if hf := ir.Callee(call).Static; hf != nil && load_FuncPkgPath(hf) == PkgCtrl && saysOnlyOnDone(hf, f.Truth) {
+							okDone = true
+						}
+					}
 				}
-				sel, isSel := ex.Tuple.(*ssa.Select)
-				if !isSel || int(k) >= len(sel.States) || k < 0 {
-					return false
-				}
-				call, isCall := ir.Resolve(sel.States[k].Chan).(*ssa.Call)
-				return isCall && sel.States[k].Dir == types.RecvOnly && strings.HasSuffix(ir.CallName(call), "context.Context.Done")
-			})
+			}
 			if !okDone && bad == "" {
 				bad = c.P.Pos(rv.ret.Pos())
 			}
